@@ -214,6 +214,21 @@ def replay(ctx, rec):
         return 1 if r else 0
     if "trace" in d:
         t = d["trace"]
+        # re-execute the recorded inputs on the real client, then let TLC judge the new recording
+        if "maxc" in t["cfg"]:
+            real = AdmReal(t["cfg"], 30)
+            try:
+                t = {"id": t["id"], "cfg": t["cfg"], "ev": [{"a": e["a"], "args": e["args"], "obs": real.step(e["a"], e["args"])} for e in t["ev"]]}
+            finally:
+                real.close()
+        else:
+            real = RedirReal(t["cfg"])
+            try:
+                ev = [{"a": "fetch", "args": [], "obs": real.proj()}]
+                ev += [{"a": e["a"], "args": e["args"], "obs": real.step(e["a"], e["args"])} for e in t["ev"][1:]]
+                t = {"id": t["id"], "cfg": t["cfg"], "ev": ev}
+            finally:
+                real.close()
         if "maxc" in t["cfg"]:
             v = ctx.validate("httpm", "Trace_ClientAdmission", "Trace_ClientAdmission.cfg", [t], label="c2s-adm")
         else:
